@@ -46,6 +46,16 @@ func init() {
 	register(&Property{ID: "C04", Level: "exploration",
 		Rule:  latticeRule + "one evaluation = CopyTo into an empty object, CopyFrom into a fresh struct, comparison of both structs in the documented normal form",
 		Check: stdL2("C04", 8, 150)})
+	const planRule = "cases = curated corpus + seeded random descriptors; per selected type N plan objects: a fully known value of the schema's Terraform type (values inside the range of the Go fields, known zero values included, at most one active branch per oneof group) decoded by the schema's own attribute type as req.Plan.Get does, then a pseudo-random null/unknown mask (modes mixed / mostly known / mostly absent / zero heavy) applied on the attr.Value tree; distinct = distinct (case, type, null/unknown/known shape of the object) triples; "
+	register(&Property{ID: "C05", Level: "exploration",
+		Rule:  planRule + "one evaluation = one CopyFrom: each object is decoded in a clean variant (as the framework would deliver it) and a hand-built variant that keeps the payload under the Null/Unknown flags, into a fresh target and into a target pre-filled with a dense lattice value; oracles: no panic, no error diagnostic, every null/unknown position left zero/nil/empty (counter absent-positions-judged), oneof holder nil when all branches absent, result independent of the payload, root-level excluded fields unchanged",
+		Check: stdL2("C05", 8, 150)})
+	register(&Property{ID: "C07", Level: "exploration",
+		Rule:  planRule + "CopyFrom: objects with at most one known branch per group (others null or typed unknown), decoded into a fresh target and two pre-filled targets holding other branches; the holder must be exactly the set branch with the model's value, or nil; CopyTo: lattice struct values into an empty object, null-ness of every branch attribute of every group at every level (nested objects, list and map elements); distinct = distinct (level path, group, active branch / none / zero payload, prior) combinations (counters from-groups-judged, to-groups-judged)",
+		Check: stdL2("C07", 8, 150)})
+	register(&Property{ID: "C08", Level: "exploration",
+		Rule:  planRule + "one evaluation = history plan -> CopyFrom(fresh struct) -> CopyTo(into a deep copy of the same plan object) -> CopyFrom; oracles: no unknown below field-backed attributes, every known non-element attribute unchanged (value / null-ness / length / key set; counter known-attributes-judged), second decode equals the first in normal form",
+		Check: stdL2("C08", 8, 150)})
 	register(&Property{ID: "C20", Level: "exploration",
 		Rule:  latticeRule + "one evaluation = one CopyTo into an empty object followed by the null-ness walk over every non-element attribute (counter judged-attributes)",
 		Check: stdL2("C20", 8, 150)})
